@@ -124,8 +124,22 @@ func featuresFor(leaf *pqfile.Node) []string {
 	if leaf.MaxRep > 0 {
 		fs = append(fs, "bit_packed_rep_levels")
 	}
+	// encoding ids by number: ids the format defines but that cannot be honoured here (8 without
+	// a dictionary page), ids a later format version may assign, and ids that only look like a
+	// supported one after truncation to 8 or 16 bits (256 = PLAIN, 259 = RLE, 65536)
+	for _, id := range encodingIDs {
+		fs = append(fs, fmt.Sprintf("value_encoding_id_%d", id))
+		if leaf.MaxDef > 0 {
+			fs = append(fs, fmt.Sprintf("def_level_encoding_id_%d", id))
+		}
+		if leaf.MaxRep > 0 {
+			fs = append(fs, fmt.Sprintf("rep_level_encoding_id_%d", id))
+		}
+	}
 	return fs
 }
+
+var encodingIDs = []int32{8, 10, 64, 255, 256, 259, 65536, -1}
 
 // applyFeature rewrites chunk wc so that the page at index pi uses feature.
 // It returns false if the feature cannot be placed there.
@@ -274,9 +288,27 @@ func applyFeature(wc *pqfile.WChunk, pi int, feature string) bool {
 			q.UncompressedSize = int32(len(q.Body))
 		}
 	default:
-		return false
+		var id int32
+		switch {
+		case scanID(feature, "value_encoding_id_", &id):
+			p.Enc = id
+		case scanID(feature, "def_level_encoding_id_", &id) && leaf.MaxDef > 0:
+			p.DefEnc = id
+		case scanID(feature, "rep_level_encoding_id_", &id) && leaf.MaxRep > 0:
+			p.RepEnc = id
+		default:
+			return false
+		}
 	}
 	return true
+}
+
+func scanID(feature, prefix string, id *int32) bool {
+	if !strings.HasPrefix(feature, prefix) {
+		return false
+	}
+	_, err := fmt.Sscanf(feature[len(prefix):], "%d", id)
+	return err == nil
 }
 
 // carrier is one otherwise valid file with one unsupported feature.
